@@ -135,6 +135,39 @@ theorem chunks_lossless (cfg : Cfg) (l : List NetTx) :
 theorem chunks_fit_message_limit (cfg : Cfg) (l : List NetTx) (hfit : ∀ t ∈ l, netSize cfg t ≤ cfg.maxMsg - cfg.msgOverhead) :
     ∀ c ∈ chunkTransactionList cfg l, csize cfg c ≤ cfg.maxMsg - cfg.msgOverhead := chunks_fit cfg l hfit
 
+/-- the release of `addMutex` as the source has it (state.go Add): locked once, then `unlock := func() { unlockOnce.Do(s.addMutex.Unlock) }`,
+    `defer unlock()` at the top level, the same `unlock` as AfterCommit hook, no other reference to `addMutex.Unlock` -/
+theorem fact_add_mutex_release :
+    Facts.C07.addTopLevelDefers = ["unlock()"] ∧
+    Facts.C07.addUnlockDef = "func() { unlockOnce.Do(s.addMutex.Unlock) }" ∧
+    Facts.C07.addAfterLock = ["s.addMutex.Lock()", "var unlockOnce sync.Once", "unlock := func() { unlockOnce.Do(s.addMu", "defer unlock()",
+                               "return s.db.Write(ctx, func(tx stoabs.Wr"] ∧
+    Facts.C07.addWriteHooks = ["stoabs.OnRollback(func)", "stoabs.AfterCommit(unlock)", "stoabs.AfterCommit(func)", "stoabs.AfterCommit(func)", "stoabs.WithWriteLock"] ∧
+    Facts.C07.addDirectUnlockRefs = 1 := by decide
+
+/-- the source's construction, read off the facts -/
+def srcAddUnlock : AddUnlock :=
+  { deferred := Facts.C07.addTopLevelDefers.contains "unlock()",
+    afterCommit := Facts.C07.addWriteHooks.contains "stoabs.AfterCommit(unlock)",
+    onRollback := false,
+    once := Facts.C07.addUnlockDef == "func() { unlockOnce.Do(s.addMutex.Unlock) }" }
+
+/-- **`State.Add` releases its mutex exactly once on EVERY exit** — commit, error of the function, failed commit, and a `Write`
+    that fails before a transaction exists (database busy / closed): a failed Add never blocks the Adds that follow, so for the
+    protocol it is a lost TransactionList and nothing more. -/
+theorem add_mutex_released_on_every_exit (e : WriteExit) : unlockCalls srcAddUnlock e = 1 := by
+  cases e <;> decide
+
+/-- in general: a top-level deferred release through a `sync.Once` is exactly one release on every exit, whatever hooks exist -/
+theorem deferred_once_releases_exactly_once (u : AddUnlock) (hd : u.deferred = true) (ho : u.once = true) (e : WriteExit) :
+    unlockCalls u e = 1 := by
+  simp only [unlockCalls, requestedUnlocks, ho, hd, if_true]
+  exact Nat.min_eq_right (by omega)
+
+/-- … whereas the commit / rollback hooks alone leave the mutex locked when no transaction came into being -/
+theorem hooks_alone_leave_mutex_locked :
+    unlockCalls { deferred := false, afterCommit := true, onRollback := true, once := false } .noTransaction = 0 := by decide
+
 /-- the chunk size accounting of the source: room = message limit − message overhead; every transaction counts its payload,
     its data and the per-transaction overhead; the same limit is what the gRPC client and server enforce -/
 theorem fact_chunk_accounting :
